@@ -520,7 +520,8 @@ def gen_cases(ctx, what="all"):
                 if t < -(1 << 31):
                     continue
                 fit = fits_jump(d)
-                intent = ("jump", COND_NAME[JUMPS[name]], t & M16) if fit else None
+                # also when the distance does not fit: if such a jump is accepted it must still reach its target
+                intent = ("jump", COND_NAME[JUMPS[name]], t & M16) if (fit or (d % 2 == 0 and abs(d) < 0x8000)) else None
                 cases.append(Case("%s %s" % (name, spell(rng, t)), a, "-", intent, None, fit, name + ":joff", gid[0], d, name))
             cases.append(Case("%s 0x%x" % (name, (eff + 6) + (1 << 32)), a, "-", None, None, False, name + ":joff", gid[0],
                               (1 << 32) + 4, name, "narrow64"))
@@ -1057,8 +1058,7 @@ def c06_oracle(ctx, orc):
 # C07
 # =============================================================================================
 def c07_items(ctx):
-    share = (4, ctx.seed % 4) if ctx.quick() else None
-    return gen_first_words(ctx, share) + gen_struct_words(ctx, ctx.scale(3000, 30000))
+    return gen_first_words(ctx, None) + gen_struct_words(ctx, ctx.scale(3000, 30000))
 
 
 def c07_correspondence(ctx, corr):
@@ -1067,7 +1067,7 @@ def c07_correspondence(ctx, corr):
     lines = corpus_lines("C07") + ["dis %s %x %s" % (CPU, a, words_hex(ws)) for a, ws in items]
     h, d = ctx.both(lines)
     ctx.notes["m4_c07_dis"] = h[len(lines) - len(items):]
-    compare(corr, lines, h, d, "msp430.dis(first words%s)" % (" share %d/4" % (ctx.seed % 4) if ctx.quick() else " exhaustive"))
+    compare(corr, lines, h, d, "msp430.dis(all 65536 first words + structured)")
     # the assembler model on every disassembly text the real decoder produced (inside the parser fragment)
     tl = set()
     for (a, ws), r in zip(items, ctx.notes["m4_c07_dis"]):
@@ -1179,9 +1179,10 @@ def c07_oracle(ctx, orc):
 # C08
 # =============================================================================================
 def c08_dis_items(ctx):
+    """every first word in both tiers (the decoder must be total on each of them: a length 0 for one undefined word
+    is exactly what C08 is about)"""
     rng = ctx.rng
-    share = (4, (ctx.seed + 1) % 4) if ctx.quick() else None
-    out = [(a, words_hex(ws)) for a, ws in gen_first_words(ctx, share) + gen_struct_words(ctx, ctx.scale(1500, 15000))]
+    out = [(a, words_hex(ws)) for a, ws in gen_first_words(ctx, None) + gen_struct_words(ctx, ctx.scale(1500, 15000))]
     for _ in range(ctx.scale(1500, 15000)):
         out.append((rng.choice(DADDRS + [0xffffffff, 0xfffffffe, 0xfffffffc, 0xffff, 0xfffd]),
                     "".join("%02x" % rng.getrandbits(8) for _ in range(rng.randrange(1, 9)))))
@@ -1228,7 +1229,10 @@ def check_c08_dis(ctx, items, stats, dis=None):
         merge_counts(stats, "len%d" % n, 1)
         stats["longest_text"] = max(stats.get("longest_text", 0), len(t))
         first = (b + "0000000000000000")[: 2 * n]
-        for tail in ("", "ffffffffffff", "".join("%02x" % rng.getrandbits(8) for _ in range(6))):
+        tails = ("", "ffffffffffff", "".join("%02x" % rng.getrandbits(8) for _ in range(6)))
+        if ctx.quick() and stats["dis"] % 3:
+            tails = tails[stats["dis"] % 3:][:1]          # quick tier: one other tail for two thirds of the items
+        for tail in tails:
             if first + tail != b:
                 loc_lines.append("dis %s %x %s" % (CPU, a, first + tail))
                 loc_idx.append((a, b, r))
